@@ -499,7 +499,7 @@ type hist struct {
 	winObs   int // lock-free observations made inside a SetPasswd hold
 	waited   int // mutex requests seen waiting during a hold
 	secrets  int
-	sawTrans int // spinning observer saw "unlocked" during a SetPasswd on a locked wallet
+	sawTrans int // spinning observer completed a read during a SetPasswd on a locked wallet
 	timedOut int // observations made after a timeout expired
 	drift    time.Duration
 }
@@ -717,7 +717,7 @@ func (h *hist) spin(qs []req) {
 	}
 	for k, q := range qs {
 		u, l := s.sawU[k] == 1, s.sawL[k] == 1
-		if u && q.K == "setpw" && !was[k] {
+		if (u || l) && q.K == "setpw" && !was[k] {
 			h.sawTrans++
 		}
 		h.items = append(h.items, hlib.App("ISpin", q.coq(), outs[k].coq, hlib.Bool(u), hlib.Bool(l)))
@@ -942,8 +942,9 @@ func genTimed(o *hlib.Out, in caseIn, r0 *hlib.Rng) {
 	panic("timed case: the planned clock could not be kept in 4 attempts")
 }
 
-// gated histories.  window = false: the guarded stream (no lock-free observer
-// while a SetPasswd is held); window = true: observers inside SetPasswd holds.
+// gated histories.  window = false: no lock-free observer while a SetPasswd is
+// held; window = true: observers inside SetPasswd holds (the transient unlock that
+// chain33 66be1e2 removed was visible there).
 func genGate(o *hlib.Out, in caseIn, r *hlib.Rng, window bool) {
 	h := newHist(r)
 	defer h.w.e.destroy()
@@ -1027,7 +1028,8 @@ func genGate(o *hlib.Out, in caseIn, r *hlib.Rng, window bool) {
 	}
 }
 
-// the deterministic reproduction of known finding 1: a password change with a
+// the deterministic schedule of former finding 1 (fixed by chain33 66be1e2; a
+// status "unlocked" inside the hold is a violation): a password change with a
 // WRONG old password on a locked wallet (fresh process, nothing cached), held at
 // the password-hash read; IsWalletLocked / GetWalletStatus are asked meanwhile,
 // and a key dump is started and seen to wait
@@ -1092,14 +1094,14 @@ func (h *hist) setpwReqFor(pRight int, _ []req) req {
 	return q
 }
 
-// the hammer as a case: hits > 0 is known finding 2
+// the hammer as a case: hits > 0 is a violation (former finding 2, fixed by chain33 66be1e2)
 func genLostLock(o *hlib.Out, in caseIn, r *hlib.Rng) {
 	budget := 2 * time.Second
 	if thoroughRun {
 		budget = 15 * time.Second
 	}
 	tr, hits := hammerLostLock(r, budget)
-	o.Emit("lost-lock-hammer", hits > 0, hlib.App("CLostLock", hlib.N(uint64(tr)), hlib.N(uint64(hits))), in,
+	o.Emit("lost-lock-hammer", tr > 0, hlib.App("CLostLock", hlib.N(uint64(tr)), hlib.N(uint64(hits))), in,
 		map[string]interface{}{"trials": tr, "lock_undone": hits,
 			"what": "A: loop ProcWalletSetPasswd(wrong old password) on an unlocked wallet; B: ProcWalletLock -> nil, then CheckWalletStatus; lock_undone = times it still reported unlocked"})
 }
@@ -1208,12 +1210,13 @@ func main() {
 
 // ---------------------------------------------------------------- lost-lock hammer (a test)
 
-// hammerLostLock tries to hit the two-instruction race of the model's
-// C38_lost_lock_witness on the real wallet: goroutine A keeps calling
+// hammerLostLock tries to hit the race of the schedule of C38_lock_survives_setpasswd
+// on the real wallet (before chain33 66be1e2 a lock that fell between the load and
+// the CAS of ProcWalletSetPasswd was undone): goroutine A keeps calling
 // ProcWalletSetPasswd with a wrong old password on an UNLOCKED wallet; goroutine
 // B calls ProcWalletLock and then asks CheckWalletStatus (which waits for A's
 // call in flight).  If the status is still "unlocked" although B's lock
-// returned nil and nobody unlocked, A's CAS(1->0) fell behind B's CAS(0->1).
+// returned nil and nobody unlocked, the password change has cleared the flag.
 func hammerLostLock(r *hlib.Rng, budget time.Duration) (trials int, hits int) {
 	w := newWorld(r)
 	defer w.e.destroy()
